@@ -18,7 +18,7 @@
      pfok       PfokPub(P, x)  PfokDH(P, x, y)  PfokMTI(P, x, u, y, v)  PfokTrimKey(v, n)
    Hash reduction classes: G12sE identifies H, H +- q and maps 0 to 1; DstuH keeps the first m bits and maps 0 to 1;
    bign96 feeds the octets of H to belt-hash, so every alteration of H changes the signed value. *)
-EXTENDS BigNat, GF2Poly
+EXTENDS BigNat, GF2Poly, FiniteSets
 
 EB == INSTANCE ECpBig
 BM == INSTANCE BeltModes
@@ -88,11 +88,22 @@ GSqr(a, F) == PMulMod(a, a, F)
 GInv(a, F) == PInvMod(a, F)
 GDiv(a, b, F) == PMulMod(a, PInvMod(b, F), F)
 GEq(a, b) == PEq(a, b)
-\* trace: x + x^2 + x^4 + ... + x^(2^(m-1)), an element of GF(2) (0 or 1)
-GTr(x, F) ==
+\* trace: x + x^2 + x^4 + ... + x^(2^(m-1)), an element of GF(2) (0 or 1): the definition
+GTrDef(x, F) ==
   LET m == PDeg(F)
       st == FoldLeft(LAMBDA acc, i : LET sq == GSqr(acc[1], F) IN <<sq, PAdd(acc[2], sq)>>, <<PMod(x, F), PMod(x, F)>>, PRng(2, m))
   IN IF PIsZero(st[2]) THEN 0 ELSE 1
+\* the trace is GF(2)-linear: tr(x) = sum x_i tr(t^i), and tr(t^i) = p_i, the i-th power sum of the roots of F, given by
+\* Newton's identities  p_k = sum_{j=1}^{k-1} a_{m-j} p_{k-j} + k a_{m-k}  (1 <= k < m),  p_0 = m mod 2   (F = sum a_i t^i)
+\* (anchored against GTrDef in ref/SchemeVectors.tla)
+TraceVec(F) ==
+  LET m == PDeg(F)
+      cs == {j \in 1..(m - 1) : PBit(F, m - j) = 1}                  \* j with a_(m-j) = 1
+  IN FoldLeft(LAMBDA acc, k : LET s == Cardinality({j \in cs : j < k /\ acc[k - j + 1] = 1}) + (IF k \in cs THEN k ELSE 0)
+                            IN Append(acc, s % 2),
+              <<m % 2>>, PRng(1, m - 1))                              \* element k + 1 is p_k
+GTr(x, F) == LET tv == TraceVec(F)  xr == PMod(x, F)
+             IN Cardinality({i \in 0..(PDeg(F) - 1) : PBit(xr, i) = 1 /\ tv[i + 1] = 1}) % 2
 \* a curve is [F, A (0 or 1), B]; a point <<x, y>> with normalised coordinates, O = <<>>
 E2A(C) == IF C.A = 1 THEN POne ELSE PZero
 E2Rhs(C, x) == LET x2 == GSqr(x, C.F) IN PNorm(PAdd(PAdd(GMul(x2, x, C.F), GMul(E2A(C), x2, C.F)), C.B))
